@@ -645,6 +645,15 @@ class FnAnalysis:
                 return st.under.get(vid, frozenset([vid]))
             elif k == "MCall" and e.get("fn") in ("core::option::Option::<T>::as_mut", "core::option::Option::<T>::as_deref_mut", "core::convert::AsMut::as_mut", "core::borrow::BorrowMut::borrow_mut"):
                 e = e["recv"]
+            elif k in ("Call", "MCall") and is_streamlike_ty(e.get("ty") or ""):
+                # a temporary wrapper (`from_reader(decompress(c, r)?)`): it wraps whatever streams its construction mentions
+                from hir import walk
+                out = set()
+                for n in walk(e):
+                    if n["k"] == "Local" and is_streamlike_ty(self.var_types.get(self.canon(n["var"]), "") or n.get("ty") or ""):
+                        vid = self.canon(n["var"])
+                        out |= st.under.get(vid, frozenset([vid]))
+                return frozenset(out)
             else:
                 return frozenset()
         return frozenset()
@@ -1122,17 +1131,23 @@ class FnAnalysis:
             else:
                 arms = [x for x, vd in zip(arms, verdicts) if vd is not False]
             n = len(arms)
+            fell = []      # states whose pattern matched an earlier arm but whose guard was false: they try the later arms, knowing that
             for j, (i, arm) in enumerate(arms):
-                sa = s.fork() if j < n - 1 else s
-                self.ev(sa, "decide", e, how="match", outcome=i, cond=v, pat=arm["pat"], cond_node=e["e"], arm=arm)
-                self.bind(sa, arm["pat"], v, e["e"])
-                if arm["guard"] is not None:
-                    for sg, o in self.cond_paths(arm["guard"], sa):
-                        if o:
-                            outs.extend(self.eval(arm["body"], sg))
-                        # guard-false falls to later arms; approximated by those arms' own paths
-                else:
-                    outs.extend(self.eval(arm["body"], sa))
+                starts = [(s.fork() if j < n - 1 else s, False)] + [(sf.fork(), True) for sf in fell]
+                fell_next = []
+                for sa, was_fell in starts:
+                    # fell=False: no earlier arm's pattern matched (guards never ran); fell=True: an earlier pattern matched and its guard was false
+                    self.ev(sa, "decide", e, how="match", outcome=i, cond=v, pat=arm["pat"], cond_node=e["e"], arm=arm, fell=was_fell)
+                    self.bind(sa, arm["pat"], v, e["e"])
+                    if arm["guard"] is not None:
+                        for sg, o in self.cond_paths(arm["guard"], sa):
+                            if o:
+                                outs.extend(self.eval(arm["body"], sg))
+                            else:
+                                fell_next.append(sg)
+                    else:
+                        outs.extend(self.eval(arm["body"], sa))
+                fell = (fell + fell_next)[:8]
         self._check()
         return outs
 
@@ -1252,7 +1267,8 @@ class FnAnalysis:
         inner = e["e"]
         while inner is not None and inner["k"] in ("Await",):
             inner = inner["e"]
-        return inner is not None and inner["k"] in ("Call", "MCall") and inner.get("fn") in getattr(self, "_inlinable", ())
+        return inner is not None and inner["k"] in ("Call", "MCall") and (inner.get("fn") in getattr(self, "_inlinable", ()) or
+                                                                          (inner.get("fn") or "").endswith(("Option::<T>::ok_or", "Option::<T>::ok_or_else")))
 
     def can_inline(self, fn):
         if len(self.frames) >= 3 or fn in self.frames or fn == self.fn["path"]:
@@ -1353,6 +1369,47 @@ class FnAnalysis:
                     self.ev(sb, "decide", e, how="if", outcome=outcome, cond=vals[0], cond_node=e["recv"], folded=known is not None)
                     outs.append((sb, ("call", "core::option::Option::Some", (vals[1],), None) if outcome else ("call", "core::option::Option::None", (), None)))
                 continue
+            if fn == "core::option::Option::<T>::filter" and len(vals) == 2 and isinstance(vals[1], tuple) and vals[1]:
+                # `o.filter(p)` keeps the payload when p(&payload) holds, else None (Option modelled at payload level)
+                pred = vals[1]
+                pay = vals[0]
+                if isinstance(pay, tuple) and pay and pay[0] == "call" and pay[1] == "core::option::Option::Some" and pay[3] is None and len(pay[2]) == 1:
+                    pay = pay[2][0]
+                results = None
+                if pred[0] == "clos":
+                    node = getattr(self, "clos_nodes", {}).get(pred[1])
+                    if node is not None and len(node["params"]) == 1:
+                        s.events = [x for x in s.events if x.clos != pred[1]]
+                        sub = s
+                        self.bind(sub, node["params"][0], pay, e["recv"])
+                        results = [(s3, v3) for s3, v3 in self.eval(node["body"], sub) if s3.ctrl is None]
+                elif pred[0] == "call" and not pred[2] and pred[3] is None and self.can_inline(pred[1]):
+                    results = self.inline_call(e, s, pred[1], [e["recv"]], [pay])
+                if results:
+                    for s3, truth in results:
+                        known = _const_truth(truth)
+                        for outcome in ((known,) if known is not None else (False, True)):
+                            sb = s3.fork() if (known is None and outcome is False) else s3
+                            self.ev(sb, "decide", e, how="if", outcome=outcome, cond=truth, cond_node=e["args"][0], folded=known is not None)
+                            outs.append((sb, vals[0] if outcome else ("call", "core::option::Option::None", (), None)))
+                    continue
+            if fn == "core::bool::<impl bool>::then" and len(vals) == 2 and isinstance(vals[1], tuple) and vals[1] and vals[1][0] == "clos":
+                # `c.then(|| f())` is `if c { Some(f()) } else { None }`: the closure runs only on the true branch
+                node = getattr(self, "clos_nodes", {}).get(vals[1][1])
+                known = _const_truth(vals[0])
+                if node is not None and not node["params"]:
+                    cid_ = vals[1][1]
+                    s.events = [x for x in s.events if x.clos != cid_]      # the closure runs in place (or not at all), not where it was written
+                    for outcome in ((known,) if known is not None else (False, True)):
+                        sb = s.fork() if (known is None and outcome is False) else s
+                        self.ev(sb, "decide", e, how="if", outcome=outcome, cond=vals[0], cond_node=e["recv"], folded=known is not None)
+                        if not outcome:
+                            outs.append((sb, ("call", "core::option::Option::None", (), None)))
+                            continue
+                        for s3, v3 in self.eval(node["body"], sb):
+                            if s3.ctrl is None:
+                                outs.append((s3, ("call", "core::option::Option::Some", (v3,), None)))
+                    continue
             if self.can_inline(fn):
                 res = self.inline_call(e, s, fn, exprs, vals)
                 if res is not None:
@@ -1407,14 +1464,22 @@ class FnAnalysis:
                     s2, v2 = outs[0]
                     # adopt the closure's bindings and events (it ran exactly once on this path)
                     st.env, st.under, st.pos, st.vers = s2.env, s2.under, s2.pos, s2.vers
-                    st.events.extend(s2.events[n0:])
+                    st.events[:] = [x for x in st.events if x.clos != vals[1][1]]
+                    st.events.extend(x for x in s2.events[n0:] if x.clos != vals[1][1])
                     self.ev(st, "call", e, fn=fn, args=tuple(vals), arg_nodes=arg_nodes, recv=recv_node, ret=v2, effects=(), uid=None, tys=tys,
                             argkeys=[frozenset() for _ in arg_nodes], pos_before={}, pos_after={}, direct=None, targs=e.get("targs"), resolved=e.get("resolved"))
                     return v2
         if fn in PAYLOAD_TRANSPARENT and vals:
-            self.ev(st, "call", e, fn=fn, args=tuple(vals), arg_nodes=arg_nodes, recv=recv_node, ret=vals[0], effects=(), uid=None, tys=tys,
+            ret_ = vals[0]
+            if fn.endswith(("::ok_or", "::ok_or_else")) and isinstance(ret_, tuple) and ret_ and ret_[0] == "call" and ret_[3] is None:
+                # a visible None becomes the error, a visible Some(x) becomes Ok(x)
+                if ret_[1] == "core::option::Option::None":
+                    ret_ = ("call", "core::result::Result::Err", (("call", fn, tuple(vals[1:]), self.fresh()),), None)
+                elif ret_[1] == "core::option::Option::Some" and len(ret_[2]) == 1:
+                    ret_ = ("call", "core::result::Result::Ok", (ret_[2][0],), None)
+            self.ev(st, "call", e, fn=fn, args=tuple(vals), arg_nodes=arg_nodes, recv=recv_node, ret=ret_, effects=(), uid=None, tys=tys,
                     argkeys=[frozenset() for _ in arg_nodes], pos_before={}, pos_after={}, direct=None, targs=e.get("targs"), resolved=e.get("resolved"))
-            return vals[0]
+            return ret_
         # stream model
         effects = []
         ret = None
